@@ -222,8 +222,7 @@ impl GroupEncoding for K256 {
     type Repr = CompressedPoint;
 
     fn from_bytes(bytes: &Self::Repr) -> CtOption<Self> {
-        let compressed = k256::CompressedPoint::from(bytes.0);
-        <ProjectivePoint as K256GroupEncoding>::from_bytes(&compressed).map(Self)
+        K256Affine::from_bytes(bytes).map(Self::from)
     }
 
     fn from_bytes_unchecked(bytes: &Self::Repr) -> CtOption<Self> {
@@ -241,7 +240,11 @@ impl GroupEncoding for K256Affine {
 
     fn from_bytes(bytes: &Self::Repr) -> CtOption<Self> {
         let compressed = k256::CompressedPoint::from(bytes.0);
-        <AffinePoint as K256GroupEncoding>::from_bytes(&compressed).map(Self)
+        // The `sec1` parser also accepts the x-only "compact" form (tag 0x05) at this length;
+        // only the identity (0x00) and the compressed tags 0x02 / 0x03 are canonical here.
+        let canonical_tag = Choice::from(matches!(bytes.0[0], 0x00 | 0x02 | 0x03) as u8);
+        <AffinePoint as K256GroupEncoding>::from_bytes(&compressed)
+            .and_then(|p| CtOption::new(Self(p), canonical_tag))
     }
 
     fn from_bytes_unchecked(bytes: &Self::Repr) -> CtOption<Self> {
